@@ -2,7 +2,21 @@
 
 HOOK_COMMITS = ["f2e7017", "f6e5a67"]
 
+PAR_NOTE = ("Trusted: TLC, Sem.tla / SyncOps.tla, the harness and the hook events (emitted under the protecting lock). "
+            "Schedules on the implementation are sampled (real OS threads, seeded jitter), not enumerated; universality "
+            "over schedules comes from the TLC run of the protocol model.")
+
+
+def par(text, design, technique="TLA+ trace validation of multi-threaded salsa runs (ParTrace.tla + SyncTrace.tla monitors)"):
+    return dict(claimed=True, engine="par-trace", level="model_checking", text=text, design_ref=design,
+                note=PAR_NOTE, technique=technique)
+
+
 ENGINES = [
+    {"name": "par-trace", "path": "specs/core/ParTrace.tla, specs/sync/SyncTrace.tla, specs/sync/SyncOps.tla",
+     "serves_properties": ["C16", "C17", "C18", "C19", "C20", "C21"],
+     "kind_free_text": "TLA+ monitors over traces of real threads on database clones; protocol events from hook H1 are "
+                       "replayed through the SyncOps actions (guards + invariants)"},
     {"name": "core-trace", "path": "specs/core/CoreTrace.tla",
      "serves_properties": ["C01", "C02", "C03", "C04", "C05", "C06", "C07", "C08", "C09", "C10", "C11", "C12", "C13", "C14", "C15", "C23"],
      "kind_free_text": "TLA+ monitor (trace specification) over Sem.tla reference semantics, evaluated by TLC on traces "
@@ -46,6 +60,13 @@ META = {
                "error; all other results stay from-scratch.", "§7 C14 (sequential part)"),
     "C15": seq("Programs without a fixpoint: outcome must be the iteration-limit panic (or a propagated panic in the same "
                "revision); later revisions/unrelated functions vs Sem.", "§7 C15"),
+    "C16": par("Per-thread results vs single-threaded from-scratch semantics; termination (watchdog => violation); protocol "
+               "events validated against SyncOps.", "§7 C16"),
+    "C17": par("At most one WillExecute per key and revision across all handles.", "§7 C17"),
+    "C18": par("Cross-thread fixpoint / fallback cycles: results vs Lfp / fallback semantics, termination.", "§7 C18"),
+    "C19": par("The property is the set of SyncOps guards and invariants: each H1 event of each run is checked.", "§7 C19"),
+    "C20": par("Writer exclusion (hook H4) and PendingWrite ordering monitors, results per revision.", "§7 C20"),
+    "C21": par("must-unwind / may-unwind monitors for Cancelled::Local, results of all handles.", "§7 C21"),
     "C23": dict(seq("Value-lifetime discipline only (no raw-memory claims): no drop while a reference of the same revision "
                     "is held, retained references keep their value, no double drop, nothing leaked at database drop.",
                     "§7 C23, §8"), level="exploration"),
